@@ -63,7 +63,6 @@ type laidCase struct {
 	Words    [][]string      `json:"words"`
 	Print    string          `json:"print"`
 	Reparsed []any           `json:"reparsed"`
-	Listing  []string        `json:"listing"`
 }
 
 func num(v any) int {
